@@ -2,6 +2,7 @@
 """Write MANIFEST.json from the property modules present under harness/props and tools/manifest_meta.json."""
 import json
 import os
+import re
 VERIF = os.path.dirname(os.path.dirname(os.path.abspath(__file__)))
 meta = json.load(open(os.path.join(VERIF, "tools", "manifest_meta.json")))
 props = [json.loads(l) for l in open(os.path.join(VERIF, "properties.jsonl"))]
@@ -9,7 +10,9 @@ checks, na = [], []
 for p in props:
     pid = p["id"]
     m = meta["checks"].get(pid)
-    if m and os.path.exists(os.path.join(VERIF, "harness", "props", pid.lower() + ".py")):
+    propsf = os.path.join(VERIF, "lean", "TT", "Props", pid + ".lean")
+    has_thm = os.path.exists(propsf) and re.search(r"^\s*theorem\s", open(propsf).read(), re.M)
+    if m and has_thm and os.path.exists(os.path.join(VERIF, "harness", "props", pid.lower() + ".py")):
         checks.append({
             "property_id": pid,
             "quick_cmd": "checks/run.py %s --tier quick" % pid,
